@@ -649,12 +649,12 @@ def walk_task(item):
 def walks(chk, tier, seed):
     items = []
     for mode in ("analytical", "autodiff"):
-        items.append(("H2CO", "AM1", 1, "analytical", (0, 1), [1.2, 1.5, 1.8], seed))
-        items.append(("H2CO", "AM1", 0, mode, (0, 1), [1.2, 1.5, 1.8], seed))
-    items.append(("H2CO", "AM1", 2, "analytical", (0, 1), [1.2, 1.5, 1.8], seed))
+        items.append(("H2CO", "AM1", 1, "analytical", (0, 1), (1.2, 1.5, 1.8), seed))
+        items.append(("H2CO", "AM1", 0, mode, (0, 1), (1.2, 1.5, 1.8), seed))
+    items.append(("H2CO", "AM1", 2, "analytical", (0, 1), (1.2, 1.5, 1.8), seed))
     if tier != "quick":
-        items.append(("CH3OH", "AM1", 1, "analytical", (0, 1), [1.42, 1.7, 2.0], seed))
-        items.append(("CH3OH", "PM3", 0, "analytical", (0, 1), [1.42, 1.7, 2.0], seed))
+        items.append(("CH3OH", "AM1", 1, "analytical", (0, 1), (1.42, 1.7, 2.0), seed))
+        items.append(("CH3OH", "PM3", 0, "analytical", (0, 1), (1.42, 1.7, 2.0), seed))
     items = list(dict.fromkeys(items))
     res = pmap(walk_task, items, chunk=1, timeout=1800, progress="C01 objects with a history")
     for it, r in zip(items, res):
